@@ -11,7 +11,7 @@
 # VERIF_WALL_CAP_S (default here: 600) bounds a check that a change makes hang; it is then listed as broken.
 # The scratch worktree and its build output are removed at the end.
 V="$(cd "$(dirname "$0")/.." && pwd)"   # works from a snapshot of /verif as well (vp run)
-cd "$V"
+cd "$V"; mkdir -p "$V/target"
 PAT="${1:-}"
 OUT=$V/mutants/MATRIX.txt
 [ -n "${SEEDED:-}" ] && OUT=$V/seeded/MATRIX.txt
